@@ -100,8 +100,11 @@ def run(prog, rep, tier):
         mine = [d for d in draws if lid in d.loops]
         apps = [c for c in S.select("call", qname=Q) if c.callkind == "method" and c.target == ".append" and lid in c.loops]
         w = fwhere(f, li["node"])
-        rep.check("COUNT.K", okK and len(apps) == 1 and len(mine) == 1 and len(apps[0].loops) == len(mine[0].loops), w,
-                  "range(K) iterations, one append each", "the loop does not append exactly one intervention for each of K rounds")
+        lf = [x for x in S.select("loop", qname=Q) if x.lid == lid]
+        uncond = bool(apps) and bool(lf) and resolve(conj(apps[0].path)) == resolve(conj(lf[0].path))
+        rep.check("COUNT.K", okK and len(apps) == 1 and len(mine) == 1 and len(apps[0].loops) == len(mine[0].loops) and uncond, w,
+                  "range(K) iterations, one unconditional append each", "the loop does not append exactly one intervention in each of the K rounds (%s)" % (
+                      "the append is conditional: %s" % sorted(pred_fmt(p_) for p_ in resolve(conj(apps[0].path)) - resolve(conj(lf[0].path))) if apps and lf and not uncond else "loop / append shape"))
         if len(mine) != 1 or len(apps) != 1:
             continue
         d = mine[0]
